@@ -110,7 +110,13 @@ def opCompat (inp impl : Json) : Except String Resp := do
   let panicResp : Resp := { model := some (jObj [("panic", jStr "index-out-of-range")]), spec := some true }
   let A ← match buildReqs ja with | .ok r => pure r | .error "panic" => return panicResp | .error e => throw e
   let B ← match buildReqs jb with | .ok r => pure r | .error "panic" => return panicResp | .error e => throw e
-  let model := jObj [("compatible", jBool (A.compatible B U)), ("intersects", jBool (A.intersects B))]
+  -- `IsCompatible` is `Compatible = nil`; observers change nothing, so the answers after every accessor has been called are
+  -- the same; `Add` builds new requirements (C12_add_*), so operands shared with a copy are kept and A+B = B+A
+  let mc := A.compatible B U
+  let mx := A.intersects B
+  let model := jObj [("compatible", jBool mc), ("intersects", jBool mx), ("isCompatible", jBool mc), ("readsPure", jBool true),
+    ("compatibleAfterReads", jBool mc), ("isCompatibleAfterReads", jBool mc), ("intersectsAfterReads", jBool mx),
+    ("operandsKept", jBool true), ("sumCommutes", jBool true)]
   -- spec: key by key, does some (possibly absent) value allowed by A satisfy B?  (C12_compatible's right-hand side,
   -- evaluated with the complete candidate set)
   let allExprs := (ja.map (·.2)) ++ (jb.map (·.2))
@@ -122,6 +128,18 @@ def opCompat (inp impl : Json) : Except String Resp := do
     let c ← boolF impl "compatible"
     if c != specOk then
       return (false, s!"Compatible = {c} but key-by-key satisfiability is {specOk}")
+    if (← boolF impl "isCompatible") != specOk then
+      return (false, s!"IsCompatible answers differently from key-by-key satisfiability ({specOk})")
+    if (← boolF impl "compatibleAfterReads") != specOk || (← boolF impl "isCompatibleAfterReads") != specOk then
+      return (false, s!"after the accessors were called on both sets Compatible/IsCompatible no longer answer {specOk}: a read changed a set")
+    if !(← boolF impl "readsPure") then
+      return (false, "an accessor (Get/Has/Keys/Values/String/NodeSelectorRequirements) changed the set it read")
+    if (← boolF impl "intersectsAfterReads") != (← boolF impl "intersects") then
+      return (false, "Intersects answers differently after the accessors were called")
+    if !(← boolF impl "operandsKept") then
+      return (false, "Add on a copy changed a requirement of its operands (the intersection must be a new value)")
+    if !(← boolF impl "sumCommutes") then
+      return (false, "A + B differs from B + A")
     pure (true, "")
   let (ok, why) := match res with
     | .ok x => x
